@@ -52,7 +52,9 @@ class Gen:
 
     def text(self, maxlen=30):
         n = self.r.choice(WIDTH_LENS + [self.r.randrange(0, maxlen)]) if self.p(0.15) else self.r.randrange(0, maxlen)
-        alphabet = "abcdefghijklmnopqrstuvwxyz0123456789-_.:/# " + ("é中\U0001f600\"\\" if self.p(0.2) else "")
+        # text is code points as written: precomposed and decomposed accents, compatibility characters (OHM SIGN, KELVIN SIGN, a CJK compatibility
+        # ideograph), astral characters, NEL - nothing is normalised on the way
+        alphabet = "abcdefghijklmnopqrstuvwxyz0123456789-_.:/# " + ("é中\U0001f600\"\\" if self.p(0.2) else "") + ("e\u0301\u2126\u212a\uf900\u0085A\u030a" if self.p(0.12) else "")
         t = "".join(self.r.choice(alphabet) for _ in range(n))
         if self.p(0.06):
             # text carried verbatim: line breaks at the end (YAML block scalars), inside, and outer blanks
